@@ -73,17 +73,21 @@ PushImmOK(b, v) == \/ SignExt(b, 4) = LE(v, 4)
 (* models (otherwise the verdict is "unjudged", never a violation).        *)
 (***************************************************************************)
 Judged(s) ==
-  LET mn == s.mn  k == Len(s.ops) IN
-  \/ mn \in Alu2 \cup {"MOV"} /\ k = 2
-  \/ mn \in Shifts /\ k = 2
-  \/ mn \in Unary /\ k = 1
-  \/ mn = "IMUL" /\ k \in {1, 2, 3}
-  \/ mn \in {"PUSH", "POP"} /\ k = 1
-  \/ mn \in {"IN", "OUT"} /\ k = 2
-  \/ mn = "INT" /\ k = 1
-  \/ mn \in {"RET", "RETN", "RETF"} /\ k \in {0, 1}
-  \/ mn = "LGDT" /\ k = 1
-  \/ k = 0 /\ (mn \in NoOpJudged \/ FixedBytes(mn) # << >>)
+  LET mn == s.mn  k == Len(s.ops)
+      forms ==
+        \/ k >= 1 /\ mn \notin {"RET", "RETN", "RETF", "REP", "REPE", "REPNE", "REPZ", "REPNZ", "LOCK"}
+                  /\ (mn \in NoOpJudged \/ FixedBytes(mn) # << >>)     \* no such form exists: must be diagnosed
+        \/ mn \in Alu2 \cup {"MOV"} /\ k = 2
+        \/ mn \in Shifts /\ k = 2
+        \/ mn \in Unary /\ k = 1
+        \/ mn = "IMUL" /\ k \in {1, 2, 3}
+        \/ mn \in {"PUSH", "POP"} /\ k = 1
+        \/ mn \in {"IN", "OUT"} /\ k = 2
+        \/ mn = "INT" /\ k = 1
+        \/ mn \in {"RET", "RETN", "RETF"} /\ k \in {0, 1}
+        \/ mn = "LGDT" /\ k = 1
+        \/ k = 0 /\ (mn \in NoOpJudged \/ FixedBytes(mn) # << >>)
+  IN (\A j \in 1..k : s.ops[j].t # "txt") /\ forms      \* string / character operands: outside the model
 
 (***************************************************************************)
 (* Denotes(bytes, s, bits, V): the byte string, decoded under `bits`, is   *)
